@@ -48,6 +48,9 @@ const (
 	upConnectFail = "connect-fail"    // the connection to this attempt's host fails to connect
 	upConnectTO   = "connect-timeout" // ... times out
 	upReplySplit  = "reply-ok-split"  // success response delivered in two reads (header part / rest)
+	upReplyDup    = "reply-ok-dup"    // the success response is delivered twice
+	upReplyUnk    = "reply-unknown-then-ok" // a response with an id nobody is waiting for, then the real one
+	upLateOK      = "late-ok"         // answers only after the downstream already got its (timeout) reply: a late reply
 )
 
 type hpRequest struct {
@@ -67,6 +70,7 @@ type hpScenario struct {
 	Requests       []hpRequest `json:"requests"`
 	OneChunk       bool        `json:"one_chunk,omitempty"` // all requests delivered in one read
 	Sequential     bool        `json:"sequential,omitempty"` // request i+1 is sent only after the response to request i arrived
+	Reverse        bool        `json:"reverse,omitempty"`    // the upstream answers only once all requests arrived, last request first
 	RouteTimeoutMs int         `json:"route_timeout_ms,omitempty"`
 	TryTimeoutMs   int         `json:"try_timeout_ms,omitempty"`
 	RetryOn        bool        `json:"retry_on,omitempty"`
@@ -114,7 +118,8 @@ type hpUpConn struct {
 	Host     int
 	Requests []hpFrame // request frames seen so far (decoded from the written bytes)
 	parsed   int       // bytes of Written() already parsed
-	answered int       // requests already acted upon by the peer
+	answered int       // requests already acted upon by the peer (in arrival order, unless Reverse)
+	done     map[int]bool
 }
 
 type hpObs struct {
@@ -540,6 +545,37 @@ func (h *hpRun) parseUp(u *hpUpConn) {
 	}
 }
 
+// attemptOf numbers the upstream attempts of one downstream request by the global
+// order in which their request frames were written (0-based).
+func (h *hpRun) attemptOf(u *hpUpConn, i int) int {
+	me := u.Requests[i]
+	k := 0
+	for _, o := range h.obs.Ups {
+		for _, f := range o.Requests {
+			if f.Token == me.Token && f.Seq < me.Seq {
+				k++
+			}
+		}
+	}
+	return k
+}
+
+// downAnswered reports whether a response for the request with that token is on the downstream wire.
+func (h *hpRun) downAnswered(token string) bool {
+	frames, _, _ := hpParse(h.obs.Down.Written())
+	for i, r := range h.sc.Requests {
+		if r.Token != token {
+			continue
+		}
+		for _, f := range frames {
+			if f.ID == uint32(100+i) {
+				return true
+			}
+		}
+	}
+	return false
+}
+
 // scriptFor returns the scripted outcome of attempt k (0-based) of the request with that token.
 func (h *hpRun) scriptFor(token string, k int) string {
 	r := h.reqByTk[token]
@@ -571,30 +607,68 @@ func (h *hpRun) onUpstreamConn(c *vfake.Conn) {
 		for {
 			var act string
 			var fr hpFrame
+			pick := -1
 			vrt.WaitUntil("upstream peer: next request to act on", func() bool {
 				if h.done || c.IsClosed() {
 					return false
 				}
-				h.parseUp(u)
-				for u.answered < len(u.Requests) {
-					fr = u.Requests[u.answered]
-					k := h.attempt[fr.Token]
-					act = h.scriptFor(fr.Token, k)
-					if fr.Oneway || act == upSilent {
-						// nothing to do for this request, ever
-						u.answered++
-						h.attempt[fr.Token]++
+				for _, o := range h.obs.Ups {
+					h.parseUp(o)
+				}
+				if u.done == nil {
+					u.done = map[int]bool{}
+				}
+				if h.sc.Reverse {
+					// hold every reply until all two-way requests of the scenario are here
+					want := 0
+					for _, r := range h.sc.Requests {
+						if !r.Oneway {
+							want++
+						}
+					}
+					have := 0
+					for _, f := range u.Requests {
+						if !f.Oneway {
+							have++
+						}
+					}
+					if have < want {
+						return false
+					}
+				}
+				for n := 0; n < len(u.Requests); n++ {
+					i := n
+					if h.sc.Reverse {
+						i = len(u.Requests) - 1 - n
+					}
+					if u.done[i] {
 						continue
 					}
+					fr = u.Requests[i]
+					k := h.attemptOf(u, i)
+					act = h.scriptFor(fr.Token, k)
+					if fr.Oneway || act == upSilent {
+						u.done[i] = true // nothing to do for this request, ever
+						continue
+					}
+					if act == upLateOK && !h.downAnswered(fr.Token) {
+						continue // not yet: the downstream has not been answered (by a timeout) so far
+					}
+					pick = i
 					return true
 				}
 				return false
 			})
-			u.answered++
-			h.attempt[fr.Token]++
+			u.done[pick] = true
 			h.logf("peer%d(host%d): request id=%d token=%s -> %s", idx, u.Host, fr.ID, fr.Token, act)
 			switch act {
-			case upReply200:
+			case upReply200, upLateOK:
+				c.InjectRead(hpBoltResponse(fr.ID, bolt.ResponseStatusSuccess, fr.Token, true))
+			case upReplyDup:
+				c.InjectRead(hpBoltResponse(fr.ID, bolt.ResponseStatusSuccess, fr.Token, true))
+				c.InjectRead(hpBoltResponse(fr.ID, bolt.ResponseStatusSuccess, fr.Token, true))
+			case upReplyUnk:
+				c.InjectRead(hpBoltResponse(fr.ID+7777, bolt.ResponseStatusSuccess, "nobody", true))
 				c.InjectRead(hpBoltResponse(fr.ID, bolt.ResponseStatusSuccess, fr.Token, true))
 			case upReplySplit:
 				b := hpBoltResponse(fr.ID, bolt.ResponseStatusSuccess, fr.Token, true)
